@@ -16,8 +16,10 @@ GeometryFactory<TGeomImpl, TProjection> (every instantiation of drivers/geom.cpp
         (`*_unique`, add_points): the only edge that skips the emit is the equal-edge of a comparison between the current
         location and the local that holds the location emitted last; that local is written nowhere else in the loop.
  E4-first-element-never-skipped   the duplicate test must not be able to drop the FIRST element: a sentinel that is a
-        default-constructed (= undefined) osmium::Location compares equal to an undefined first location.   FIRES on
-        today's tree (3 instances, see KNOWN).
+        default-constructed (= undefined) or otherwise constant osmium::Location compares equal to a first element with that
+        location, unless the deciding condition has a further operand / the emit can be reached without the comparison
+        (`first || last != cur`).   FIRES on today's tree (3 instances `#sentinel`, see KNOWN); a sentinel built from other
+        constants is reported under the separate key `#sentinel-constant`.
  W1-wrapper-forwards         linestring_start/finish, polygon_start/finish call the same-named back-end method exactly
         once on every path, pass their parameter on and return its result.
  T1-create-protocol          create_linestring / create_polygon / create_multipolygon drive the back end through the
@@ -74,9 +76,9 @@ frozen OGC / RFC 7946 shape); agreement of the three encodings as values; projec
 import itertools
 
 from .. import ordertype as OT
-from ..c17_util import (POS, TOP, ZERO, abs_cond, address_taken, char_of, decl_of, delta_states, exit_t, is_abort_block, block_throws,
-                        is_this, local_or_param, loop_header_block, loop_of, lvalue_key, normal_paths, param_index, path_elems, peel,
-                        pn, recv_field, short, string_of, this_field, writes)
+from ..c17_util import (POS, TOP, abs_cond, address_taken, char_of, decl_of, delta_states, exit_t, is_abort_block, is_this, local_or_param,
+                        loop_header_block, lvalue_key, normal_paths, param_index, path_elems, peel, pn, recv_field, short, string_of,
+                        this_field, writes)
 from ..flow import describe_path, guards_of, path_search
 
 EXPLANATION = (
@@ -95,7 +97,8 @@ ASSUMPTIONS = [
     'the instantiations in drivers/geom.cpp (WKB, WKT, GeoJSON x Identity, Mercator x pointer, reverse iterator) cover the library\'s own uses',
 ]
 
-# Genuine defects of the unchanged tree found by these rules: (rule, key, explanation).  Reported with R.bad as usual.
+# Genuine defects of the unchanged tree found by these rules: (rule, key, explanation).  Reported with R.bad as usual; each was
+# replayed once against the real headers in a scratch directory (since removed) after the rule had predicted it.
 KNOWN = [
     ('E4-first-element-never-skipped', 'osmium::geom::GeometryFactory::fill_linestring_unique#sentinel',
      'The duplicate filter compares every element with `last_location`, which starts as a default-constructed (undefined) Location. '
@@ -358,37 +361,50 @@ def _fill_one(fb, R, fn, F, S, name, unique, emit_name, q):
 
     # ---------------------------------------------------------------- E3 which elements may be skipped
     key = q + '#skip-guard'
-    dup = None  # (block id, skip edge index, cond id)
+    dups = []  # (block id, index of the edge taken when the two locations are EQUAL, cond id, decl of the compared local)
     if unique:
-        for e in emits:
-            for (c, sense, blk) in guards_of(fn, e['id']):
-                cn = pn(fn, c)
-                if cn is None or cn.get('k') != 'call' or cn.get('op') not in ('!=', '==') or not fn.in_range(c, S.loop['b'], S.loop['e']):
-                    continue
-                if short(cn.get('q', '')) not in ('operator!=', 'operator=='):
-                    continue
-                ops = list(cn.get('args', []))
-                if cn.get('recv') is not None:
-                    ops = [cn['recv']] + ops
-                if len(ops) != 2:
-                    continue
-                a, b = ops
-                la, lb = local_or_param(fn, a), local_or_param(fn, b)
-                pair = (la, b) if (la is not None and S.cur_loc(b)) else ((lb, a) if (lb is not None and S.cur_loc(a)) else None)
-                if pair is None:
-                    continue
-                if (cn['op'] == '!=') != bool(sense):
-                    continue
-                if c != fn.blocks[blk].get('cond'):
-                    continue   # part of a larger condition: handled as unknown shape below
-                dup = (blk, 1 if cn['op'] == '!=' else 0, c, pair[0])
-        if dup is None:
+        for blk in fn.blocks.values():
+            c = blk.get('cond')
+            if c is None or len(blk['succs']) != 2 or blk.get('termcls') == 'SwitchStmt' or not fn.in_range(c, S.loop['b'], S.loop['e']):
+                continue
+            # the test this block itself evaluates: for `a || b` / `a && b` the earlier operands have blocks of their own and the
+            # block that carries the statement's terminator evaluates the last operand
+            cn = pn(fn, c)
+            neg = False
+            while cn is not None:
+                if cn.get('k') == 'unop' and cn.get('op') == '!':
+                    neg = not neg
+                    cn = pn(fn, cn['sub'])
+                elif cn.get('k') == 'binop' and cn.get('op') in ('&&', '||') and blk.get('termcls') != 'BinaryOperator':
+                    cn = pn(fn, cn['rhs'])
+                else:
+                    break
+            if cn is None or cn.get('k') != 'call' or cn.get('op') not in ('!=', '==') or short(cn.get('q', '')) not in ('operator!=', 'operator=='):
+                continue
+            ops = list(cn.get('args', []))
+            if cn.get('recv') is not None:
+                ops = [cn['recv']] + ops
+            if len(ops) != 2 or LOC not in (fn.nodes.get(peel(fn, ops[0]), {}).get('t') or ''):
+                continue
+            x, y = ops
+            lx, ly = local_or_param(fn, x), local_or_param(fn, y)
+            L = lx if (lx is not None and not S.cur_loc(x) and S.cur_loc(y)) else (ly if (ly is not None and not S.cur_loc(y) and S.cur_loc(x)) else None)
+            if L is None:
+                continue
+            eq_edge = 1 if cn['op'] == '!=' else 0
+            if neg:
+                eq_edge = 1 - eq_edge
+            dups.append((blk['id'], eq_edge, c, L))
+        if not dups:
             R.bad('E3-skip-only-consecutive-duplicates', key, site,
-                  '%s must drop consecutive duplicates: no emit is guarded by a comparison `last != <current>.location()` of osmium::Location values' % name)
+                  '%s must drop consecutive duplicates: the loop has no comparison of the current location with the location emitted last' % name)
+        elif len({d[3] for d in dups}) != 1:
+            R.broken('%s: several duplicate tests against different locals' % fn.full)
+            dups = []
         else:
             # the local must hold the location emitted last: all its writes are `L = <current>.location()` inside the loop and on
             # every path the number of such writes equals the number of emits when the iteration ends
-            L = dup[3]
+            L = dups[0][3]
             lw = [w for w in writes(fn) if w[1] == ('var', L)]
             okw = bool(lw) and all(w[2] in ('opassign', 'assign') and S.cur_loc(w[3]) and fn.in_range(w[0]['id'], S.loop['b'], S.loop['e']) for w in lw) \
                 and not address_taken(fn, ('var', L))
@@ -397,13 +413,15 @@ def _fill_one(fb, R, fn, F, S, name, unique, emit_name, q):
                 st = delta_states(fn, lambda n: (1 if n['id'] in emit_ids else 0) - (1 if n['id'] in lids else 0))
                 ends = list(S.step_ids) + [n['id'] for n in fn.all_nodes() if n.get('k') == 'return']
                 okw = all(st.get(e) == frozenset([0]) for e in ends if e in st)
-            R.check(okw, 'E3-skip-only-consecutive-duplicates', q + '#compares-with-last-emitted', fn.loc(dup[2]),
+            R.check(okw, 'E3-skip-only-consecutive-duplicates', q + '#compares-with-last-emitted', fn.loc(dups[0][2]),
                     'the duplicate test compares the current location with a local that does not hold exactly the location emitted last '
                     '(it must be assigned the current location on the paths that emit, and only there)')
             sentinel = L if okw else None
+    dup_edges = {(d[0], d[1]) for d in dups}
+    dup_blocks = {d[0] for d in dups}
 
     def edge_ok(b, idx, s):
-        return not (dup is not None and b == dup[0] and idx == dup[1])
+        return (b, idx) not in dup_edges
     w = path_search(fn, S.body_entry, lambda x: (not isinstance(x, tuple)) and x in S.step_ids, lambda x: x in emit_ids, edge_ok, from_block_start=True)
     R.check(w is None, 'E3-skip-only-consecutive-duplicates', key, site,
             'an element can pass through the loop body without being emitted%s: %s'
@@ -416,20 +434,33 @@ def _fill_one(fb, R, fn, F, S, name, unique, emit_name, q):
                 'an element can be emitted twice within one iteration: %s' % describe_path(fn, w2))
 
     # ---------------------------------------------------------------- E4 first element
-    if unique and dup is not None and sentinel is not None:
+    if unique and dups and sentinel is not None:
         dn, dv = decl_of(fn, sentinel)
         init = pn(fn, dv.get('init')) if dv is not None and isinstance(dv.get('init'), int) else None
         # a sentinel built from nothing / from constants is itself a possible element value
-        is_default_loc = init is not None and init.get('k') == 'construct' and init.get('q') == LOC + '::(ctor)' and \
+        is_const_loc = init is not None and init.get('k') == 'construct' and init.get('q') == LOC + '::(ctor)' and \
             all((pn(fn, a) or {}).get('k') == 'lit' or 'cv' in (pn(fn, a) or {}) for a in init.get('args', []))
-        first_guard = False
-        for (c, sense, blk) in guards_of(fn, dup[2]):
-            if fn.in_range(c, S.loop['b'], S.loop['e']) and blk != S.header:
-                first_guard = True      # the comparison itself is only reached under a further loop-local condition
-        R.check(not is_default_loc or first_guard, 'E4-first-element-never-skipped', q + '#sentinel', fn.loc(dn['id']) if dn else site,
-                'the duplicate filter starts from a constant osmium::Location (%s; default = undefined): a first element with exactly that '
-                'location compares equal to it and is dropped silently -- for the undefined location instead of raising invalid_location '
-                '(e.g. locations [undefined, A, B] yield the geometry A,B)' % (fn.expr(dv['init']) if dv is not None and isinstance(dv.get('init'), int) else '?'))
+        # a first-element path: the emit can be reached in an iteration without going through the duplicate test at all
+        # (`if (first || last != cur)`, `if (num_points == 0 || ...)`)
+        bypass = None
+        if S.body_entry not in dup_blocks:
+            bypass = path_search(fn, S.body_entry, lambda x: (not isinstance(x, tuple)) and x in emit_ids, lambda x: False,
+                                 lambda b, idx, s_: s_ not in dup_blocks, from_block_start=True)
+        # ... or the comparison is only one operand of the deciding condition (`first || last != cur`, `!first && last == cur`)
+        compound = False
+        for d_ in dups:
+            x = pn(fn, fn.blocks[d_[0]].get('cond'))
+            while x is not None and x.get('k') == 'unop' and x.get('op') == '!':
+                x = pn(fn, x['sub'])
+            if x is not None and x.get('k') == 'binop' and x.get('op') in ('&&', '||'):
+                compound = True
+        is_default = is_const_loc and not init.get('args')
+        R.check(not is_const_loc or bypass is not None or compound, 'E4-first-element-never-skipped',
+                q + ('#sentinel' if (is_default or not is_const_loc) else '#sentinel-constant'), fn.loc(dn['id']) if dn else site,
+                'the duplicate filter starts from a constant osmium::Location (%s; default = undefined) and every element, including the first, '
+                'is compared with it: a first element with exactly that location is dropped silently -- for the undefined location instead of '
+                'raising invalid_location (e.g. locations [undefined, A, B] yield the geometry A,B)'
+                % (fn.expr(dv['init']) if dv is not None and isinstance(dv.get('init'), int) else '?'))
 
 
 # ================================================================================================ wrappers
@@ -2362,8 +2393,9 @@ def _st_backend(fb, R):
 
 
 SELFTESTS = [(r, 'c17_geom.cpp', _st_factory) for r in (
-    'E1-count-equals-emits', 'E2-emits-current-element', 'E3-skip-only-consecutive-duplicates', 'W1-wrapper-forwards', 'T1-create-protocol',
+    'E1-count-equals-emits', 'E2-emits-current-element', 'E3-skip-only-consecutive-duplicates', 'E4-first-element-never-skipped',
+    'W1-wrapper-forwards', 'T1-create-protocol',
     'D1-direction-and-uniqueness-dispatch', 'D2-reverse-iterators', 'G1-degenerate-threshold')] + [(r, 'c17_geom.cpp', _st_backend) for r in (
         'P1-checked-accessors', 'X1-axis-order', 'B1-backpatch-offset-pairing', 'B2-backpatch-counter', 'B3-nested-slots-distinct',
         'B4-set_size-patches-uint32', 'B5-header-layout', 'B6-start-resets-buffer', 'B7-patch-before-handover', 'S1-text-nesting-grammar',
-        'H1-hex-encoding')]
+        'H1-hex-encoding', 'N1-snprintf-length-bounded', 'N2-zero-trim-needs-fraction')]
